@@ -26,24 +26,38 @@ class Injected(OSError):
     pass
 
 
-class Injector:
-    """counts the primitive calls in execution order; injects `kind` at step `target`"""
+class InjectedPermission(PermissionError, Injected):     # what Windows raises for a file that is open elsewhere
+    pass
 
-    def __init__(self, target, kind):
+
+class InjectedNotFound(FileNotFoundError, Injected):
+    pass
+
+
+EXC = {"os": Injected, "perm": InjectedPermission, "notfound": InjectedNotFound}
+
+
+class Injector:
+    """counts the primitive calls in execution order; injects `kind` at step `target` (exception class `exc`), and
+    optionally a second fault `kind2` at the later step `target2` (code that swallows the first fault and goes on)"""
+
+    def __init__(self, target, kind, exc="os", target2=-1, kind2=0):
         self.target, self.kind, self.n, self.log = target, kind, 0, []
+        self.exc, self.target2, self.kind2 = EXC[exc], target2, kind2
 
     def call(self, name, real, partial=None):
         i = self.n
         self.n += 1
         self.log.append(name)
-        if i == self.target:
-            if self.kind == 0:
-                raise Injected(f"injected before {name}")
-            if self.kind == 2 and partial is not None:
-                partial()
-                raise Injected(f"injected part-way {name}")
-            r = real()
-            raise Injected(f"injected after {name}")
+        for tgt, kind, exc in ((self.target, self.kind, self.exc), (self.target2, self.kind2, Injected)):
+            if i == tgt and tgt >= 0:
+                if kind == 0:
+                    raise exc(f"injected before {name}")
+                if kind == 2 and partial is not None:
+                    partial()
+                    raise exc(f"injected part-way {name}")
+                real()
+                raise exc(f"injected after {name}")
         return real()
 
 
@@ -173,7 +187,7 @@ def run_job(job):
         decoded = ChkIo().decode_chk_binary_data((vlib.REPO / "test/resources/test-chkjson-scm.chk").read_bytes()) \
             if job["ep"] == 0 else None
         before = {"base": sha(base), "dst": sha(dst), "audio": [sha(a) for a in audio]}
-        inj = Injector(job.get("step", -1), job.get("kind", 0))
+        inj = Injector(job.get("step", -1), job.get("kind", 0), job.get("exc", "os"), job.get("step2", -1), job.get("kind2", 0))
         exc = None
         with instrumented(inj):
             try:
